@@ -97,7 +97,7 @@ class MetaData:
         if metadata:
             write_jsonfile(self.path, data=metadata, sort_keys=True,
                            ensure_ascii=True, overwrite=True)
-        else:
+        elif self._path.exists():  # there may have been no metadata at all
             self._path.unlink()
             self._callatfilecreationordeletion()
         return val
